@@ -12,6 +12,7 @@ mod c09;
 mod c10;
 mod c10_limits;
 mod c12;
+mod c13;
 mod c14;
 mod c31;
 mod c32;
@@ -25,7 +26,7 @@ mod c29;
 mod c20_policy;
 mod strings;
 
-type SearchResult = (u64, Option<(Value, Outcome)>);
+type SearchResult = (u64, Option<(Value, Outcome)>, Vec<(Value, String)>);
 
 pub fn run(case: &str, args: &Value) -> Option<Outcome> {
     let r = std::panic::catch_unwind(|| run_inner(case, args));
@@ -67,6 +68,7 @@ fn run_inner(case: &str, args: &Value) -> Option<Outcome> {
         "c21_redact" => Some(c21::redact(args)),
         "c29_loader" => Some(c29::loader(args)),
         "c09_validate" => Some(c09::validate(args)),
+        "c13_lex" => Some(c13::lex(args)),
         "c12_parse" => Some(c12::parse(args)),
         "c12_multipart" => Some(c12::multipart(args)),
         "c15_quoted" => Some(strings::quoted(args)),
@@ -108,6 +110,7 @@ pub fn search(case: &str, seed: u64, open: &[String]) -> Option<SearchResult> {
         "c21_redact" => Box::new(c21::inputs(seed, open)),
         "c29_loader" => Box::new(c29::inputs(seed)),
         "c09_validate" => Box::new(c09::inputs(seed, open)),
+        "c13_lex" => Box::new(c13::inputs(seed, open)),
         "c12_parse" => Box::new(c12::parse_inputs(seed)),
         "c12_multipart" => Box::new(c12::multipart_inputs(seed)),
         "c15_quoted" | "c17_escape" => Box::new(strings::string_inputs(seed)),
@@ -116,16 +119,18 @@ pub fn search(case: &str, seed: u64, open: &[String]) -> Option<SearchResult> {
         _ => return None,
     };
     let mut tried = 0u64;
+    let mut samples: Vec<(Value, String)> = Vec::new();
     for input in gen {
         if in_known_region(case, &input, open) { continue; }
         tried += 1;
         if let Some(o) = run(case, &input) {
             if !o.holds {
-                return Some((tried, Some((input, o))));
+                return Some((tried, Some((input, o)), samples));
             }
+            if samples.len() < 6 { samples.push((input, o.observed)); }
         }
     }
-    Some((tried, None))
+    Some((tried, None, samples))
 }
 
 /// inputs inside the region of an OPEN known finding are skipped by the witness search (they are reported as KNOWN-FINDING)
